@@ -132,7 +132,7 @@ pub fn acyclic_case(o: &Opts, case_seed: u64) -> CaseReport {
 /// requested function in the current revision, so every handle its memo and the memos below it
 /// hold must still denote the value it was interned for.
 #[derive(Default)]
-struct HeldHandles {
+pub struct HeldHandles {
     clock: u64,
     by_act: std::collections::HashMap<ActK, (Vec<(u8, u16, u32, u32)>, Vec<ActK>)>,
 }
@@ -141,7 +141,14 @@ impl HeldHandles {
     fn update(&mut self, log: &crate::log::Log) {
         let recs = log.since(self.clock);
         self.clock = log.now();
-        for e in mon::executions(&recs) {
+        self.update_recs(&recs);
+    }
+
+    /// Takes the executions of `recs` in order of completion (several threads may have logged).
+    pub fn update_recs(&mut self, recs: &[Stamped]) {
+        let mut execs = mon::executions(recs);
+        execs.sort_by_key(|e| e.end);
+        for e in execs {
             if e.value.is_none() {
                 self.by_act.remove(&e.act);
                 continue;
@@ -165,7 +172,7 @@ impl HeldHandles {
         }
     }
 
-    fn read_back(&self, runner: &Runner, prog: &Prog, req: &Req, counts: &mut Counts) -> Option<String> {
+    pub fn read_back(&self, runner: &Runner, prog: &Prog, req: &Req, counts: &mut Counts) -> Option<String> {
         let (n, arg) = match req {
             Req::Node(n) => (*n, 0u16),
             Req::Multi(n, a) => (*n, *a),
@@ -554,7 +561,7 @@ fn monotone_now(prog: &Prog, inp: &refint::Inputs, only: Option<usize>) -> bool 
     }
     fn has_call(e: &Expr) -> bool {
         match e {
-            Expr::Call(_) | Expr::PeekZ(..) => true,
+            Expr::Call(_) | Expr::PeekZ(..) | Expr::PeekNZ(..) => true,
             Expr::Bin(_, a, b) => has_call(a) || has_call(b),
             Expr::If(c, t, f) => has_call(c) || has_call(t) || has_call(f),
             _ => false,
@@ -849,6 +856,26 @@ pub fn cyclic_case(o: &Opts, case_seed: u64) -> CaseReport {
     rep
 }
 
+/// Any value-controlled callee set (`peekz` or `peeknz`).
+pub fn has_peek(e: &Expr) -> bool {
+    match e {
+        Expr::PeekNZ(..) | Expr::PeekZ(..) => true,
+        Expr::Bin(_, a, b) => has_peek(a) || has_peek(b),
+        Expr::If(a, b, c) => has_peek(a) || has_peek(b) || has_peek(c),
+        _ => false,
+    }
+}
+
+pub fn has_peeknz(e: &Expr) -> bool {
+    match e {
+        Expr::PeekNZ(..) => true,
+        Expr::Bin(_, a, b) => has_peeknz(a) || has_peeknz(b),
+        Expr::If(a, b, c) => has_peeknz(a) || has_peeknz(b) || has_peeknz(c),
+        Expr::PeekZ(_, _, g) => has_peeknz(g),
+        _ => false,
+    }
+}
+
 pub fn dump_log(log: &[Stamped]) {
     if std::env::var("SVH_DUMP").is_ok() {
         for (c, th, r) in log {
@@ -866,9 +893,30 @@ pub fn classify_cyc_mismatch(
     n: usize,
     got: &Outcome,
 ) -> Option<&'static str> {
-    let Outcome::Val(g) = got else { return None };
     let edges = refint::call_edges(prog, inp);
     let (comp, cyc) = refint::sccs(&edges);
+    // F18: a monotone program in which a callee is consulted only once another callee has left
+    // bottom (`peeknz`) oscillates between two dependency shapes and runs into the iteration limit
+    if let Outcome::Panic(PanicClass::TooMany, _) = got {
+        let all_fix = prog.nodes.iter().all(|x| matches!(x.kind, Kind::Fix | Kind::FixJ));
+        let reach = refint::reachable(&edges, n);
+        if all_fix && reach.iter().any(|&x| has_peek(&prog.nodes[x].body)) {
+            return Some("C12/value_controlled_callee_set/iteration_limit_on_monotone_program");
+        }
+        return None;
+    }
+    if let Outcome::Panic(_, msg) = got {
+        // F20: salsa's own backdate-violation check fires for a fixpoint function of a cycle with a
+        // value-controlled callee set (the regression F8 repaired for fixed callee sets)
+        let all_fix = prog.nodes.iter().all(|x| matches!(x.kind, Kind::Fix | Kind::FixJ));
+        let reach = refint::reachable(&edges, n);
+        let _ = &reach;
+        let all_fb = prog.nodes.iter().all(|x| x.kind == Kind::Fb);
+        if (all_fix || all_fb) && msg.contains("returned the same value, but the previous execution changed at") {
+            return Some("C12/fixpoint_stamp_regresses_across_iterations/backdate_violation_panic");
+        }
+    }
+    let Outcome::Val(g) = got else { return None };
     let all_fb = prog.nodes.iter().all(|x| x.kind == Kind::Fb);
 
     // records of the current revision
@@ -961,6 +1009,96 @@ pub fn classify_cyc_mismatch(
                 return Some("C13/fallback_participant_reexecuted_outside_cycle");
             }
         }
+        // F21: the analogue of F5 for cycle_result functions. A participant's memo stores the
+        // *flattened* inputs of its cycle; the set lacks an input read by a fellow member, so after
+        // a write to that input the participant is validated green and keeps its old value.
+        {
+            let expect = refint::fallback_values(prog, inp);
+            let nn = prog.nodes.len();
+            let execs_old = mon::executions(&log[..start]);
+            let mut served: Vec<Option<u16>> = vec![None; nn];
+            let mut pending_top: Option<usize> = None;
+            for (_, _, r) in cur {
+                match r {
+                    Rec::Read(ReadK::Call(_, c, _), v) => served[*c as usize] = Some(*v),
+                    Rec::Call(_, Req::Node(x)) => pending_top = Some(*x),
+                    Rec::Ret(_, Outcome::Val(v)) => {
+                        if let Some(x) = pending_top.take() {
+                            served[x] = Some(*v);
+                        }
+                    }
+                    _ => {}
+                }
+            }
+            served[n] = Some(*g);
+            for x in 0..nn {
+                if served[x].is_none() && validated_now(x) {
+                    served[x] = execs_old
+                        .iter()
+                        .rev()
+                        .find(|e| e.act.node as usize == x && e.value.is_some())
+                        .and_then(|e| e.value);
+                }
+            }
+            let stale: Vec<usize> = (0..nn)
+                .filter(|&x| !executed_now(x) && served[x].is_some_and(|v| v != expect[x]))
+                .collect();
+            fn reads_in(e: &Expr, c: usize, f: usize) -> bool {
+                match e {
+                    Expr::In(a, b) => *a == c && *b == f,
+                    Expr::Bin(_, a, b) => reads_in(a, c, f) || reads_in(b, c, f),
+                    Expr::If(a, b, d) => reads_in(a, c, f) || reads_in(b, c, f) || reads_in(d, c, f),
+                    _ => false,
+                }
+            }
+            let is_root = |m: usize| -> bool {
+                let Some(e) = execs_old.iter().rev().find(|e| e.act.node as usize == m && e.value.is_some()) else {
+                    return false;
+                };
+                let direct_changed = e.reads.iter().any(|(rk, v)| match rk {
+                    ReadK::In(c, f) => inp.cells[*c as usize][*f as usize] != *v,
+                    _ => false,
+                });
+                let mut written: Vec<(usize, usize)> = Vec::new();
+                let mut then = refint::Inputs {
+                    cells: vec![[0, 0]; prog.ncells],
+                    unt: inp.unt.clone(),
+                };
+                for (clk, _, r) in log {
+                    if let Rec::SetField(c, f, v, _) = r {
+                        if *clk > e.end {
+                            written.push((*c as usize, *f as usize));
+                        } else if *clk <= e.start {
+                            then.cells[*c as usize][*f as usize] = *v;
+                        }
+                    }
+                }
+                let edges_t = refint::call_edges(prog, &then);
+                let (comp_t, cyc_t) = refint::sccs(&edges_t);
+                let reach_t = refint::reachable(&edges_t, m);
+                let via_own_cycle = written.iter().any(|(c, f)| {
+                    (0..nn).any(|o| {
+                        o != m
+                            && (reach_t.contains(&o) || comp_t[o] == comp_t[m])
+                            && reads_in(&prog.nodes[o].body, *c, *f)
+                    })
+                });
+                cyc_t[comp_t[m]] && validated_now(m) && !direct_changed && via_own_cycle
+            };
+            // a root need not be stale by value itself (its fallback may equal its old value): what
+            // matters is that it was validated green and so kept its dependents from re-executing
+            let roots: Vec<usize> = (0..nn).filter(|&m| !executed_now(m) && is_root(m)).collect();
+            let explained = |x: usize| -> bool {
+                let reach = refint::reachable(&edges, x);
+                roots.iter().any(|r| *r == x || reach.contains(r))
+            };
+            if std::env::var("SVH_DUMP").is_ok() {
+                eprintln!("classify C13: n={n} stale={stale:?} roots={roots:?} served={served:?} expect={expect:?}");
+            }
+            if !roots.is_empty() && explained(n) && stale.iter().all(|&x| explained(x)) {
+                return Some("C13/stale_participant_validated_missing_flattened_input");
+            }
+        }
         return None;
     }
     let all_fix = prog
@@ -975,7 +1113,7 @@ pub fn classify_cyc_mismatch(
                 Expr::In(a, b) => *a == c && *b == f,
                 Expr::Bin(_, a, b) => reads_input(a, c, f) || reads_input(b, c, f),
                 Expr::If(a, b, d) => reads_input(a, c, f) || reads_input(b, c, f) || reads_input(d, c, f),
-                Expr::PeekZ(_, _, g) => reads_input(g, c, f),
+                Expr::PeekZ(_, _, g) | Expr::PeekNZ(_, _, g) => reads_input(g, c, f),
                 _ => false,
             }
         }
@@ -1011,9 +1149,9 @@ pub fn classify_cyc_mismatch(
             .collect();
         // a stale memo of the described class: an inner cycle head validated green although an
         // input read (only) by other members of its cycle was written since its last execution
-        let is_root = |m: usize| -> bool {
+        let is_root = |m: usize| -> u8 {
             let last = execs.iter().rev().find(|e| e.act.node as usize == m && e.value.is_some());
-            let Some(e) = last else { return false };
+            let Some(e) = last else { return 0 };
             let direct_changed = e.reads.iter().any(|(rk, v)| match rk {
                 ReadK::In(c, f) => inp.cells[*c as usize][*f as usize] != *v,
                 _ => false,
@@ -1048,13 +1186,22 @@ pub fn classify_cyc_mismatch(
                     .iter()
                     .any(|&o| o != m && reads_input(&prog.nodes[o].body, *c, *f))
             });
-            cyc_t[comp_t[m]]
-                && validated_now(m)
-                && !direct_changed
-                && refint::cyc_info(prog, &then, m).nested
-                && via_own_cycle
+            let nested = refint::cyc_info(prog, &then, m).nested;
+            // F18b: without nesting the same lag needs a member whose callee set depends on a value
+            // (it reads a new callee in the last iteration while its value stays the same)
+            let nz = reach_t.iter().any(|&o| has_peeknz(&prog.nodes[o].body));
+            if cyc_t[comp_t[m]] && validated_now(m) && !direct_changed && via_own_cycle {
+                if nested {
+                    return 1;
+                }
+                if nz {
+                    return 2;
+                }
+            }
+            0
         };
-        let roots: Vec<usize> = stale.iter().copied().filter(|&m| is_root(m)).collect();
+        let root_kind: Vec<u8> = (0..nn).map(|m| if stale.contains(&m) { is_root(m) } else { 0 }).collect();
+        let roots: Vec<usize> = stale.iter().copied().filter(|&m| root_kind[m] == 1).collect();
         let explained = |x: usize| -> bool {
             let reach = refint::reachable(&edges, x);
             roots.iter().any(|r| *r == x || reach.contains(r))
@@ -1064,6 +1211,127 @@ pub fn classify_cyc_mismatch(
         }
         if !roots.is_empty() && explained(n) && stale.iter().all(|&x| explained(x)) {
             return Some("C12/stale_inner_head_validated_missing_flattened_input");
+        }
+        // F18 (second face): a member of a former cycle is validated green *inside the execution*
+        // of a fellow member that is entered first in the new revision and changes its value; in
+        // programs with a value-controlled callee set that execution finishes without ever seeing
+        // the cycle, so the validated member keeps its old value for the rest of the revision
+        let validated_inside_fellow = |m: usize| -> bool {
+            let Some(e) = execs.iter().rev().find(|e| e.act.node as usize == m && e.value.is_some()) else {
+                return false;
+            };
+            let mut then = refint::Inputs {
+                cells: vec![[0, 0]; prog.ncells],
+                unt: inp.unt.clone(),
+            };
+            for (clk, _, r) in log {
+                if *clk > e.start {
+                    break;
+                }
+                if let Rec::SetField(c, f, v, _) = r {
+                    then.cells[*c as usize][*f as usize] = *v;
+                }
+            }
+            let edges_t = refint::call_edges(prog, &then);
+            let (comp_t, cyc_t) = refint::sccs(&edges_t);
+            if !cyc_t[comp_t[m]] {
+                return false;
+            }
+            let has_nz = (0..nn).any(|x| comp_t[x] == comp_t[m] && has_peeknz(&prog.nodes[x].body));
+            if !has_nz {
+                return false;
+            }
+            // executions of the current revision that enclose a DidValidate of m
+            let mut open: Vec<usize> = Vec::new();
+            for (_, _, r) in cur {
+                match r {
+                    Rec::Enter(a) => open.push(a.node as usize),
+                    Rec::Exit(..) | Rec::Unwound(_) => {
+                        open.pop();
+                    }
+                    Rec::Ev(Ev::DidValidate(k)) if keymap.get(k).map(|a| a.node as usize) == Some(m) => {
+                        if open.iter().any(|&x| x != m && comp_t[x] == comp_t[m]) {
+                            return true;
+                        }
+                    }
+                    _ => {}
+                }
+            }
+            false
+        };
+        let roots2: Vec<usize> = stale
+            .iter()
+            .copied()
+            .filter(|&m| root_kind[m] != 0 || validated_inside_fellow(m))
+            .collect();
+        let explained2 = |x: usize| -> bool {
+            let reach = refint::reachable(&edges, x);
+            roots2.iter().any(|r| *r == x || reach.contains(r))
+        };
+        if !roots2.is_empty() && explained2(n) && stale.iter().all(|&x| explained2(x)) {
+            return Some("C12/value_controlled_callee_set/stale_cycle_member");
+        }
+        // F19: a function was executed in this revision with the *initial* value of a function h
+        // that was executing around it (so its result is provisional on h), but h completed
+        // without iterating (its own new execution no longer reaches that function), and the
+        // provisional result is served as final afterwards
+        let execs_cur = mon::executions(cur);
+        let mut leaked: Vec<usize> = Vec::new();
+        for m in 0..nn {
+            let Some(e) = execs_cur.iter().rev().find(|e| e.act.node as usize == m && e.value.is_some()) else {
+                continue;
+            };
+            if e.value == Some(lfp[m]) {
+                continue;
+            }
+            // cycle_initial of an enclosing execution consumed inside e
+            let mut heads: Vec<usize> = Vec::new();
+            for (clk, _, r) in cur {
+                if *clk > e.start && *clk < e.end {
+                    if let Rec::CycleInitial(h) = r {
+                        // h is executing around e, or is being verified around e (no execution of
+                        // h starts inside e: that would be an inner cycle iterated within e)
+                        let inner = execs_cur
+                            .iter()
+                            .any(|o| o.act.node as usize == *h && o.start > e.start && o.start < e.end);
+                        if !inner && *h != m {
+                            heads.push(*h);
+                        }
+                    }
+                }
+            }
+            // ... or the provisional value of a function that was executing around e
+            for (clk, it) in &e.items {
+                if let mon::Item::Read(ReadK::Call(_, h, _), _) = it {
+                    let h = *h as usize;
+                    let enclosing = execs_cur
+                        .iter()
+                        .any(|o| o.act.node as usize == h && o.start < e.start && o.start < *clk && (o.end == 0 || o.end > e.end));
+                    if enclosing && h != m {
+                        heads.push(h);
+                    }
+                }
+            }
+            if heads.is_empty() {
+                continue;
+            }
+            // none of those heads iterated after e
+            let iterated = cur.iter().any(|(clk, _, r)| match r {
+                Rec::Ev(Ev::WillIterate(k, _)) if *clk > e.end => {
+                    keymap.get(k).is_some_and(|a| heads.contains(&(a.node as usize)))
+                }
+                _ => false,
+            });
+            if !iterated {
+                leaked.push(m);
+            }
+        }
+        let explained3 = |x: usize| -> bool {
+            let reach = refint::reachable(&edges, x);
+            leaked.iter().any(|r| *r == x || reach.contains(r))
+        };
+        if !leaked.is_empty() && explained3(n) && stale.iter().all(|&x| explained3(x) || explained2(x)) {
+            return Some("C12/provisional_result_left_behind_by_head_that_completed_without_iterating");
         }
     }
     None
